@@ -868,7 +868,7 @@ def suite_file_text(contents: Optional[Contents], cases: Sequence[str], suites: 
 
 
 def case_file_text(contents: Contents) -> str:
-    return '\n'.join(contents.lines(False)) + '\n'
+    return ''.join(l + '\n' for l in contents.lines(False))
 
 
 DEFAULT_ENV_VIEW = ((ENV_BASE_VAR_CLI, 'base'),)
@@ -923,3 +923,84 @@ def expected_case_run(suite: Optional[Contents], case: Contents, case_file: str,
             after = True  # seeded oracle error
         ev += (c + s) if after else (s + c)
     return ident, ev
+
+
+LAYOUTS = ('beside', 'named', 'both', 'sub')
+
+
+def k3_observe(layout: str, S: Contents, C: Contents, B: Optional[Contents] = None, suite_as_dir: bool = False,
+               oracle_bug: bool = False):
+    """Writes the fixture of `layout`, runs the REAL main program in each of the ways the layout allows and returns
+    [(what, observed (identifier, event keys) or a str describing a malformed run, expected (identifier, event keys))]."""
+    out = []
+
+    def standalone(world, argv, exp, what):
+        r = world.run(argv)
+        obs = (r.identifier(), keys(r.events()))
+        if not r.cwd_preserved or r.sandboxes_left or not isinstance(r.rc, int):
+            obs = 'malformed run: rc=%r cwd_preserved=%r sandboxes_left=%r' % (r.rc, r.cwd_preserved, r.sandboxes_left)
+        elif (r.rc == 0) != (obs[0] == 'PASS'):
+            obs = 'exit code %r with identifier %r' % (r.rc, obs[0])
+        out.append((what, obs, exp))
+
+    def suite_run(world, argv, exps, what):
+        """exps: [(case name as presented, expected)] in processing order"""
+        r = world.run(argv)
+        pc = r.per_case()
+        if pc is None or not r.cwd_preserved or r.sandboxes_left or not isinstance(r.rc, int):
+            out.append((what, 'malformed suite run: rc=%r out=%r err=%r' % (r.rc, r.out, r.err), None))
+            return
+        # (how a case file is presented - relative to which directory, `x/..` kept - is not part of the property)
+        if [os.path.normpath(c[0]) for c in pc] != [n for n, _ in exps]:
+            out.append((what, 'cases processed: %r' % ([c[0] for c in pc],), None))
+            return
+        for (name, ident, evs), (_, exp) in zip(pc, exps):
+            out.append(('%s: %s' % (what, name), (ident, keys(evs)), exp))
+        all_ok = all(c[1] in ('PASS', 'XFAIL', 'SKIPPED') for c in pc)
+        if (r.rc == 0) != all_ok:
+            out.append((what, 'exit code %r' % (r.rc,), None))
+
+    if layout == 'beside':
+        files = {'top/exactly.suite': suite_file_text(S, ['c1.case']), 'top/c1.case': case_file_text(C)}
+        exp = expected_case_run(S, C, 'c1.case', 'top', oracle_bug)
+        w = World(files)
+        suite_run(w, ['suite', 'top' if suite_as_dir else 'top/exactly.suite'], [('top/c1.case', exp)], 'suite')
+        standalone(w, ['--suite', 'top/exactly.suite', 'top/c1.case'], exp, '--suite')
+        standalone(w, ['top/c1.case'], exp, 'beside exactly.suite')
+    elif layout == 'named':
+        files = {'suites/x.suite': suite_file_text(S, ['../top/c1.case']), 'top/c1.case': case_file_text(C)}
+        exp = expected_case_run(S, C, 'c1.case', 'top', oracle_bug)
+        w = World(files)
+        suite_run(w, ['suite', 'suites/x.suite'], [('top/c1.case', exp)], 'suite')
+        standalone(w, ['--suite', 'suites/x.suite', 'top/c1.case'], exp, '--suite')
+        standalone(w, ['top/c1.case'], expected_case_run(None, C, 'c1.case', 'top', oracle_bug), 'no suite')
+    elif layout == 'both':
+        files = {'suites/x.suite': suite_file_text(S, ['../top/c1.case']), 'top/exactly.suite': suite_file_text(B, ['c1.case']),
+                 'top/c1.case': case_file_text(C)}
+        exp_x = expected_case_run(S, C, 'c1.case', 'top', oracle_bug)
+        exp_e = expected_case_run(B, C, 'c1.case', 'top', oracle_bug)
+        w = World(files)
+        standalone(w, ['--suite', 'suites/x.suite', 'top/c1.case'], exp_x, '--suite x.suite (exactly.suite beside the case)')
+        standalone(w, ['top/c1.case'], exp_e, 'beside exactly.suite')
+        suite_run(w, ['suite', 'suites/x.suite'], [('top/c1.case', exp_x)], 'suite x.suite')
+    elif layout == 'sub':
+        D = Contents('d', C.mask)
+        files = {'top/exactly.suite': suite_file_text(S, ['c1.case'], ['sub']), 'top/c1.case': case_file_text(C),
+                 'top/sub/exactly.suite': suite_file_text(B, ['c2.case']), 'top/sub/c2.case': case_file_text(D)}
+        exp1 = expected_case_run(S, C, 'c1.case', 'top', oracle_bug)
+        exp2 = expected_case_run(B, D, 'c2.case', 'top/sub', oracle_bug)
+        w = World(files)
+        suite_run(w, ['suite', 'top' if suite_as_dir else 'top/exactly.suite'], [('top/sub/c2.case', exp2), ('top/c1.case', exp1)], 'suite')
+        standalone(w, ['--suite', 'top/sub/exactly.suite', 'top/sub/c2.case'], exp2, '--suite (sub-suite)')
+        standalone(w, ['top/sub/c2.case'], exp2, 'beside exactly.suite (sub-suite)')
+    else:
+        raise ValueError(layout)
+    w.close()
+    return out
+
+
+def k3_ok(observations) -> bool:
+    for what, obs, exp in observations:
+        if exp is None or obs != exp:
+            return False
+    return True
